@@ -2,7 +2,6 @@
 
 use super::{c02::*, *};
 use crate::{interp::*, layout, runner::*, spec::*};
-use proptest::prelude::*;
 use std::path::Path;
 
 pub fn def() -> PropDef {
